@@ -6,6 +6,7 @@ import (
 	"encoding/json"
 	"fmt"
 	"os"
+	"runtime"
 	"sort"
 	"strings"
 	"time"
@@ -37,6 +38,10 @@ type c02Scn struct {
 	Conc  int    `json:"conc"`
 	Fork  uint64 `json:"fork"`   // reorg: last common block (blocks fork+1..3 are replaced, the new chain has 4 blocks)
 	NF    int    `json:"faults"` // fault budget of the enumeration
+	// the enumeration of one scenario is split into Parts disjoint slices: slice Part holds the executions
+	// whose FIRST fault hits an I/O point with ordinal = Part (mod Parts)
+	Part  int `json:"part"`
+	Parts int `json:"parts"`
 }
 
 func (s c02Scn) name() string {
@@ -71,7 +76,7 @@ func init() {
 		Level:     "fault_enumeration",
 		Technique: "exhaustive fault enumeration on the real pipeline (instrumented code under the controlled scheduler, fake Postgres, simulated node): every I/O operation of the steps x every fault kind x process death, singly and in pairs; invariant checked in every committed state; differential check of the state after retry against the fault-free run",
 		Rule: "scenarios = growth-only steps for shapes L1 (headers+logs), L2 (logs), T1 (blocks), R1 (blocks+receipts) x (batch,conc) in {1,3}x{1,2}; a step that detects a reorg (3 blocks indexed, then the last 1 or 2 replaced and one appended) for L1 and T1; a step of a dependent integration with reference look-ups (R indexed first). " +
-			"Per scenario: every I/O point after the set-up (each SQL batch incl. begin/commit/COPY/copydone, each JSON-RPC exchange) x {SQL error, SQL connection drop | rpc error, transport error, HTTP 500, truncated body} and process death (all connections dropped, tasks and clients discarded, re-created by loadTasks); quick: every single fault, and every pair on the batch=1 scenarios; thorough: every pair. " +
+			"Per scenario: every I/O point after the set-up (each SQL batch incl. begin/commit/COPY/copydone, each JSON-RPC exchange) x {SQL error, SQL connection drop | rpc error, transport error, HTTP 500, truncated body} and process death (all connections dropped, tasks and clients discarded, re-created by loadTasks); quick: every single fault, and every pair on the batch=1 conc=1 scenarios of L1 and T1 (growth and reorg); thorough: every pair. " +
 			"An execution is non-trivial when at least one fault or death was injected.",
 		Assumptions: []string{
 			"fake Postgres (h/simpg): a failed statement aborts the transaction, an error on COMMIT rolls back, a dropped connection rolls back; 'reply lost after the server executed the statement' is covered by process death before the next operation, not as a separate connection fault",
@@ -88,8 +93,9 @@ func init() {
 
 func c02Scenarios(thorough bool) []c02Scn {
 	var out []c02Scn
-	nf := func(batch int) int {
-		if thorough || batch == 1 {
+	// quick: every pair of faults on the single-partition batch=1 log and transaction scenarios, single faults elsewhere
+	nf := func(sh string, batch, conc int) int {
+		if thorough || (batch == 1 && conc == 1 && (sh == "L1" || sh == "T1")) {
 			return 2
 		}
 		return 1
@@ -97,23 +103,34 @@ func c02Scenarios(thorough bool) []c02Scn {
 	for _, sh := range []string{"L1", "L2", "T1", "R1"} {
 		for _, b := range []int{1, 3} {
 			for _, c := range []int{1, 2} {
-				out = append(out, c02Scn{Kind: "growth", Shape: sh, Batch: b, Conc: c, NF: nf(b)})
+				out = append(out, c02Scn{Kind: "growth", Shape: sh, Batch: b, Conc: c, NF: nf(sh, b, c)})
 			}
 		}
 	}
 	for _, sh := range []string{"L1", "T1"} {
 		for _, fork := range []uint64{2, 1} {
 			for _, c := range []int{1, 2} {
-				out = append(out, c02Scn{Kind: "reorg", Shape: sh, Batch: 1, Conc: c, Fork: fork, NF: nf(1)})
+				out = append(out, c02Scn{Kind: "reorg", Shape: sh, Batch: 1, Conc: c, Fork: fork, NF: nf(sh, 1, c)})
 			}
 		}
 	}
 	for _, bc := range [][2]int{{1, 1}, {3, 2}} {
-		out = append(out, c02Scn{Kind: "dep", Batch: bc[0], Conc: bc[1], NF: nf(bc[0])})
+		out = append(out, c02Scn{Kind: "dep", Batch: bc[0], Conc: bc[1], NF: nf("dep", bc[0], bc[1])})
 	}
-	// heavier scenarios first (round-robin sharding)
+	// heavier scenarios first (round-robin sharding); pair enumerations are split into slices
 	sort.SliceStable(out, func(i, j int) bool { return out[i].NF*10+out[i].Batch > out[j].NF*10+out[j].Batch })
-	return out
+	var split []c02Scn
+	for _, s := range out {
+		s.Parts = 1
+		if s.NF >= 2 {
+			s.Parts = 8
+		}
+		for k := 0; k < s.Parts; k++ {
+			s.Part = k
+			split = append(split, s)
+		}
+	}
+	return split
 }
 
 // pair = one (source, integration) whose invariant is judged.
@@ -133,6 +150,7 @@ type c02Prep struct {
 	test     string // integration under test
 	// reference (fault-free) run
 	refFinal string // canonical final state
+	want     map[string][]string // rendered projection per (integration, chain version, position, size of the referenced table)
 	refSteps int
 	refIO    []string
 }
@@ -365,7 +383,24 @@ func c02Exec(p *c02Prep, ch vrt.Chooser, reference, trace bool) (res c02Result) 
 				}
 			}
 			got := world.RenderDump(rows, cols[pr.table])
-			want := world.RenderRows(pr.decl.Expect(ver, c02Src, c02ChainID, 1, c, look), cols[pr.table])
+			vi, nref := 0, 0
+			for i, v := range p.versions {
+				if v == ver {
+					vi = i
+				}
+			}
+			if s.Kind == "dep" {
+				nref = len(w.PG.Dump(p.pairs[0].table))
+			}
+			wkey := fmt.Sprintf("%s/%d/%d/%d", pr.ig, vi, c, nref)
+			want, ok := p.want[wkey]
+			if !ok {
+				want = world.RenderRows(pr.decl.Expect(ver, c02Src, c02ChainID, 1, c, look), cols[pr.table])
+				if p.want == nil {
+					p.want = map[string][]string{}
+				}
+				p.want[wkey] = want
+			}
 			if strings.Join(got, "\n") != strings.Join(want, "\n") {
 				key := "partial:rows-differ:" + cls
 				if len(got) < len(want) {
@@ -379,6 +414,18 @@ func c02Exec(p *c02Prep, ch vrt.Chooser, reference, trace bool) (res c02Result) 
 
 	armed := false // faults and death are offered
 	dead := false
+	// slice of the enumeration: before the first fault, only I/O points of this slice offer alternatives
+	ord, allowed := 0, true
+	decide := func() {
+		allowed = !(s.Parts > 1 && len(w.Faults)+res.deaths == 0 && ord%s.Parts != s.Part)
+		ord++
+	}
+	w.FaultFilter = func(label string) bool {
+		if !strings.HasPrefix(label, "rpc:") { // (for an rpc point OnExchange has decided already)
+			decide()
+		}
+		return allowed
+	}
 	var saveSQL, saveRPC int
 	die := func(label string) {
 		dead, armed = true, false
@@ -418,7 +465,7 @@ func c02Exec(p *c02Prep, ch vrt.Chooser, reference, trace bool) (res c02Result) 
 			}
 			return f
 		}
-		if w.V.ChooseEnv(2, vrt.KFault, "death@"+label) == 1 {
+		if allowed && w.V.ChooseEnv(2, vrt.KFault, "death@"+label) == 1 {
 			if b.InTx {
 				res.counts["death_inside_open_tx"]++
 			}
@@ -434,7 +481,8 @@ func c02Exec(p *c02Prep, ch vrt.Chooser, reference, trace bool) (res c02Result) 
 		if !armed {
 			return
 		}
-		if w.V.ChooseEnv(2, vrt.KFault, "death@rpc") == 1 {
+		decide()
+		if allowed && w.V.ChooseEnv(2, vrt.KFault, "death@rpc") == 1 {
 			die("rpc")
 			ex.Fault = simeth.Fault{Kind: "transport"}
 		}
@@ -654,13 +702,13 @@ func c02Bounds(s c02Scn) explore.Bounds {
 
 func c02Run(c *fw.Ctx) {
 	scns := c02Scenarios(c.Thorough())
-	c.Bound("scenarios", len(scns))
+	c.Bound("scenario_slices", len(scns))
 	c.Bound("sql_fault_kinds", "error,drop,death")
 	c.Bound("rpc_fault_kinds", "rpcerror,transport,status500,truncate,death")
 	if c.Thorough() {
 		c.Bound("faults_per_execution", 2)
 	} else {
-		c.Bound("faults_per_execution", "2 on batch=1 scenarios, 1 otherwise")
+		c.Bound("faults_per_execution", "2 on batch=1 conc=1 L1/T1 scenarios (growth, reorg), 1 otherwise")
 	}
 	for _, s := range scns {
 		if !c.Mine() {
@@ -680,12 +728,33 @@ func c02Run(c *fw.Ctx) {
 			c.HarnessError("prepare %s: %v", s.name(), err)
 			return
 		}
-		c.Count("io_points_fault_free:"+s.name(), int64(len(p.refIO)))
-		c.Count("io_points_fault_free_total", int64(len(p.refIO)))
+		if s.Part == 0 {
+			c.Count("io_points_fault_free:"+s.name(), int64(len(p.refIO)))
+			c.Count("io_points_fault_free_total", int64(len(p.refIO)))
+			c.Count("scenarios_started", 1)
+		}
 		b := c02Bounds(s)
 		st := explore.Explore(b, true, func(r *explore.Run) bool {
 			t0 := time.Now()
+			var stopWD chan struct{}
+			if dbg := os.Getenv("C02_STACKS"); dbg != "" {
+				stopWD = make(chan struct{})
+				go func() {
+					select {
+					case <-stopWD:
+					case <-time.After(400 * time.Millisecond):
+						buf := make([]byte, 1<<20)
+						n := runtime.Stack(buf, true)
+						f, _ := os.OpenFile(dbg, os.O_APPEND|os.O_CREATE|os.O_WRONLY, 0o644)
+						fmt.Fprintf(f, "==== %s\n%s\n", s.name(), buf[:n])
+						f.Close()
+					}
+				}()
+			}
 			res := c02Exec(p, r, false, false)
+			if stopWD != nil {
+				close(stopWD)
+			}
 			if dbg := os.Getenv("C02_SLOW"); dbg != "" && time.Since(t0) > 40*time.Millisecond {
 				f, _ := os.OpenFile(dbg, os.O_APPEND|os.O_CREATE|os.O_WRONLY, 0o644)
 				fmt.Fprintf(f, "%s %v steps=%d faults=%v\n", s.name(), time.Since(t0), res.steps, res.faults)
@@ -698,6 +767,9 @@ func c02Run(c *fw.Ctx) {
 			if r.Diverged != "" {
 				c.HarnessError("HARNESS-NONDETERMINISM scenario %s: %s", s.name(), r.Diverged)
 				return false
+			}
+			if len(res.faults) == 0 && s.Part > 0 {
+				return !c.Expired() // the fault-free execution is counted in slice 0 only
 			}
 			c.Eval(len(res.faults) > 0)
 			c.Outcome(res.outcome)
@@ -718,14 +790,14 @@ func c02Run(c *fw.Ctx) {
 		})
 		if dbg := os.Getenv("C02_DEBUG"); dbg != "" {
 			f, _ := os.OpenFile(dbg, os.O_APPEND|os.O_CREATE|os.O_WRONLY, 0o644)
-			fmt.Fprintf(f, "scenario %s nf=%d: io=%d refsteps=%d executions=%d points=%d complete=%v\n  %v\n", s.name(), s.NF, len(p.refIO), p.refSteps, st.Executions, st.Points, st.Complete, p.refIO)
+			fmt.Fprintf(f, "scenario %s part %d/%d nf=%d: io=%d refsteps=%d executions=%d points=%d complete=%v\n  %v\n", s.name(), s.Part, s.Parts, s.NF, len(p.refIO), p.refSteps, st.Executions, st.Points, st.Complete, p.refIO)
 			f.Close()
 		}
 		if !st.Complete {
 			c.Cap("time-budget")
 			return
 		}
-		c.Count("scenarios_completed", 1)
+		c.Count("scenario_slices_completed", 1)
 	}
 }
 
